@@ -166,7 +166,7 @@ func checkC09(c FmtCase) Outcome {
 	cli.Freeze(root)
 	file := sb.Path("crs/" + c.FileRel())
 	run := func(args ...string) fmtRun {
-		r := cli.Run(cli.Opt{Dir: sb.Root, Timeout: 30 * time.Second}, append([]string{"-d", root, "regex", "format"}, args...)...)
+		r := cli.Run(cli.Opt{Dir: sb.Root, Timeout: 30 * time.Second}, append(append(c.Global(root), "regex", "format"), args...)...)
 		return fmtRun{r.Exit, r.Stdout, r.Stderr}
 	}
 	read := func() string { b, _ := os.ReadFile(file); return string(b) }
